@@ -197,9 +197,13 @@ def oracle_one(tomos, c, out):
     # does the sampling window overlap the tomogram at all?  (per the implementation's own window rule
     # the error is required when the crop window has no overlap; here: no sample point within 'order+1' of volume)
     if out is None:
+        # the error is legitimate when the crop window has no overlap with the tomogram; the window is guaranteed to
+        # contain the inscribed ball of the box (the whole box with corner_safe), so none of those points may be inside
         inside = np.all((coords >= 0) & (coords <= np.array(dims) - 1), axis=1)
-        if inside.any():
-            return False, "raised out-of-bound although some sample points lie inside the tomogram"
+        rad2_ = ((min(shape) - 1) / 2) ** 2
+        guaranteed = (np.sum((kk - oc) ** 2, axis=1) <= rad2_ + 1e-9) | bool(c["corner_safe"])
+        if (inside & guaranteed).any():
+            return False, "raised out-of-bound although guaranteed sample points (inscribed ball / whole box) lie inside the tomogram"
         return True, "oob"
     flat = out.ravel()
     if not np.all(np.isfinite(flat)):
@@ -280,8 +284,9 @@ def run(ck: common.Check):
         ch = chunkings[i % 5]
         c["chunks"] = list(ch) if ch else None
         out = run_impl_load(tomos, c, ch, c["method"])
-        terms.append((case_term(c, out), dict(c, impl="oob-error" if out is None else "array")))
         ok, detail = oracle_one(tomos, c, out)
+        if out is None or np.all(np.isfinite(out)):
+            terms.append((case_term(c, out), dict(c, impl="oob-error" if out is None else "array")))
         ck.oracle_count("load_vs_reference", 1, 1 if (out is not None) else 0)
         if not ok:
             ck.violation(what="loaded subtomogram disagrees with the tomogram sampled at pos/scale + R(k-c): " + detail,
